@@ -55,6 +55,14 @@ func run(prop string) {
 			runForeignClose()
 			return
 		}
+		if (prop == "C16" || prop == "C03") && simrt.Chance(1, 10, "late-ack-after-relay-loss") {
+			runLateAckAfterRelayLoss(prop)
+			return
+		}
+		if prop == "C16" && simrt.Chance(1, 6, "reopen-after-reconnect") {
+			runReopenAfterReconnect()
+			return
+		}
 		if prop == "C04" && simrt.Chance(1, 8, "transit-fallback") {
 			runTransitFallback()
 			return
